@@ -19,7 +19,7 @@ def spaces(tier):
             ((None, False, None, None), ["step"]),
             (("T2", False, None, None), ["reg", "mix"]),
             (("T2", True, None, None), ["mix", "gappy"]),
-        ], pat_n=2, horizon=3.0)
+        ], pat_n=2, horizon=3.0, plumb_n=6, plumb_gaps="ht2", plumb_tfcs=[("T2", False, None, None), ("T2", True, None, None)])
     return dict(sigma="UDFJ", n=5, n_step=7, sigma_step="UDF", tfcs=[
         ((None, False, None, None), ["step"]),
         (("T2", False, None, None), ["reg", "mix"]),
@@ -29,7 +29,8 @@ def spaces(tier):
         (("D1", False, None, None), ["reg"]),
         ((None, False, None, "HA"), ["step"]),
         (("T2", False, None, "HA"), ["mix"]),
-    ], deep=[((None, False, None, None), "step", 6), (("T2", True, None, None), "mix", 6)], pat_n=3, horizon=6.0)
+    ], deep=[((None, False, None, None), "step", 6), (("T2", True, None, None), "mix", 6)], pat_n=3, horizon=6.0,
+                plumb_n=7, plumb_gaps="ht2x", plumb_tfcs=[("T2", False, None, None), ("T2", True, None, None), ("T2", False, None, "HA"), ("H1", True, None, None)])
 
 
 def schedules(n, base_preload=0):
@@ -151,6 +152,34 @@ def one_stream(prop, rep, cfg, tfc, raw, base_preload, gkind):
             elif has_reading and len(snaps) >= 2:
                 rep.add("nontrivial", (label, tfc, gkind, tuple(raw), k, calc_first, comp))
     rep.sample({"cfg": label, "tfc": tfc_label(tfc), "raw": raw, "schedules": len(schedules(n, base_preload))})
+
+
+# ---------------------------------------------------------------- plumbing dimension: every gap word x every schedule
+PLUMB_POOL = ["OBV", "HLA", "VWAP", "positive", "EMA2", "RSI2", "MACD232", "ST2", "ADX22", "STOCH222", "VWMA2", "BBANDS2", "SMA3", "highest2"]
+PLUMB_WORDS = ["UDJLHFVZU", "JLDUHVFZD", "LHUJDZVFJ"]
+
+
+def explore_gaps(item):
+    """Where candles fall relative to bucket edges decides which appends merge, open one bucket, open several or
+    fill: every gap word over {same bucket, next bucket, skip one, far} x first offset x every composition."""
+    prop, tier, label, tfc, first, g0 = item
+    sp = spaces(tier)
+    cfg = BY_LABEL[label]
+    rep = Report()
+    n = sp["plumb_n"]
+    tfsec = A.tf_seconds(tfc[0])
+    word = PLUMB_WORDS[A.variant()["rot"] % len(PLUMB_WORDS)][:n]
+    for rest in A.words(sp["plumb_gaps"], n - 2):
+        gaps = g0 + rest
+        ts = A.timestamps(first, gaps, tfsec, A.variant()["base"])
+        raw = [A.shape(w) + (t.isoformat(),) for w, t in zip(word, ts)]
+        try:
+            with deadline(sp["horizon"] * 2):
+                one_stream(prop, rep, cfg, tfc, raw, 0, "gaps:" + first + gaps)
+        except Horizon:
+            rep.violation(f"{prop}|horizon|{cfg.get('cls', cfg.get('analysis'))}",
+                          {"cfg": label, "tfc": tfc, "raw": raw, "why": "did not terminate within horizon"})
+    return rep
 
 
 # ---------------------------------------------------------------- step confluence (deeper N)
@@ -295,11 +324,14 @@ def main(prop, tier):
             for fl in sp["sigma"]:
                 items.append((prop, tier, cfg["label"], tfc, g, fl, n))
     reps = pmap(explore, items)
+    gap_items = [(prop, tier, l, tfc, first, g0) for l in PLUMB_POOL for tfc in sp["plumb_tfcs"] for first in "+b" for g0 in sp["plumb_gaps"]]
+    reps += pmap(explore_gaps, gap_items)
     step_its = []
     for cfg in ALL:
         for tfc, gkinds in sp["tfcs"]:
-            for fl in sp["sigma_step"]:
-                step_its.append((prop, tier, cfg["label"], tfc, gkinds[-1], fl))
+            for gk in gkinds:
+                for fl in sp["sigma_step"]:
+                    step_its.append((prop, tier, cfg["label"], tfc, gk, fl))
     if prop == "C01":
         reps += pmap(explore_step, step_its)
     rep = merge_all(reps)
@@ -309,7 +341,7 @@ def main(prop, tier):
             "and whose oracle comparison was evaluated")
     bounds = {"sigma": sp["sigma"], "n": sp["n"], "step_sigma": sp["sigma_step"], "step_n": sp["n_step"],
               "tfcs": [tfc_label(t) + ":" + ",".join(g) for t, g in sp["tfcs"]], "deeper": [(tfc_label(t), g, n) for t, g, n in sp.get("deep", [])], "configs": len(ALL) + len(PATTERNS),
-              "pattern_suffix_n": sp["pat_n"], "variant": A.variant()}
+              "pattern_suffix_n": sp["pat_n"], "plumbing": {"pool": PLUMB_POOL, "n": sp["plumb_n"], "gaps": sp["plumb_gaps"], "tfcs": [tfc_label(t) for t in sp["plumb_tfcs"]]}, "variant": A.variant()}
     return finish(prop, tier, rep, t0, rule=rule, bounds=bounds, replay_confirm=replay,
                   assumptions=["streams over the stated candle/gaps alphabets; periods 2-6",
                                "float equality is bit-exact between two executions of the same code"])
